@@ -261,4 +261,4 @@ package server
 // used as the BGP next hop when there is one
 //@ func newPathFromIPRouteMessage
 //@   claims at-call
-//@   at-call netip.MustParseAddr(body.Nexthops[0].Gate.String()) requires body.Nexthops[0].Gate.IsValid()
+//@   at-call bgp.NewPathAttributeNextHop( requires arg0.IsValid()
